@@ -42,7 +42,7 @@ func c14ctx(parent *plush.Context, g int) *plush.Context {
 
 func init() {
 	register("C14", func(e *Env) {
-		e.rep.Rule = "race-detector runs: (a) 2-32 goroutines mixing Set/Value/Has/New on one context; (b) one parsed template (direct, Clone and cache-served) executed from 2-32 goroutines with own root contexts or children of one shared parent, every result compared with the sequential one; (c) concurrent Parse/Render/CacheSet with the cache enabled; non-trivial = a goroutine group that ran to completion; distinct by (workload, template, goroutines, context mode, cache mode)"
+		e.rep.Rule = "race-detector runs: (a) 2-32 goroutines mixing Set/Value/Has/New on one context; (b) one parsed template (direct, Clone and cache-served) executed from 2-32 goroutines with own root contexts or children of one shared parent, every result compared with the sequential one; (b2) a view template storing a contentFor block and a layout template replaying it, executed one after the other on one context by every goroutine; (c) concurrent Parse/Render/CacheSet with the cache enabled; non-trivial = a goroutine group that ran to completion; distinct by (workload, template, goroutines, context mode, cache mode)"
 		gs := []int{2, 4, 8}
 		iters := 200
 		if e.Thorough() {
@@ -142,6 +142,71 @@ func init() {
 						}
 						if ti == 1 && G == gs[0] {
 							e.Sample(map[string]interface{}{"template": src, "goroutines": G, "mode": mode, "cache": cache, "results": got})
+						}
+					}
+				}
+			}
+		}
+		// (b2) two templates executed one after the other on the SAME context by each goroutine
+		// (a view that stores a contentFor block, then a layout that replays it): what the first
+		// Exec left in the context is used by the second, while other goroutines do the same
+		{
+			view, err1 := plush.Parse(`<% contentFor("side") { %><%= name %>:<%= for (x) in items { %><%= x %><% } %><% } %>v<%= n %>`)
+			layout, err2 := plush.Parse(`[<%= contentOf("side") %>|<%= contentOf("side", {name: "over"}) %>|<%= name %>]`)
+			if err1 != nil || err2 != nil {
+				e.Violate("c14-parse", "view/layout templates do not parse", nil)
+			} else {
+				for _, mode := range []string{"ownroot", "sharedparent"} {
+					for _, G := range gs {
+						var parent *plush.Context
+						if mode == "sharedparent" {
+							parent = plush.NewContext()
+							parent.Set("shared", "S")
+						}
+						two := func(g int) string {
+							c := c14ctx(parent, g)
+							a, err := view.Exec(c)
+							if err != nil {
+								a = "ERR:" + err.Error()
+							}
+							b, err := layout.Exec(c)
+							if err != nil {
+								b = "ERR:" + err.Error()
+							}
+							return a + "/" + b
+						}
+						want := make([]string, G)
+						for g := 0; g < G; g++ {
+							want[g] = two(g)
+						}
+						got := make([]string, G)
+						var wg sync.WaitGroup
+						for g := 0; g < G; g++ {
+							wg.Add(1)
+							go func(g int) {
+								defer wg.Done()
+								defer func() {
+									if r := recover(); r != nil {
+										got[g] = fmt.Sprintf("PANIC %v", r)
+									}
+								}()
+								for rep := 0; rep < 40; rep++ {
+									got[g] = two(g)
+									if got[g] != want[g] {
+										return
+									}
+								}
+							}(g)
+						}
+						wg.Wait()
+						e.rep.Evaluations += G
+						e.Count("view-then-layout-" + mode)
+						e.Distinct(fmt.Sprintf("viewlayout/%s/%d", mode, G))
+						for g := 0; g < G; g++ {
+							if got[g] != want[g] {
+								e.Violate("c14-output-differs", fmt.Sprintf("view then layout on one context, goroutine %d of %d (%s): concurrent result %q, alone %q", g, G, mode, got[g], want[g]), map[string]interface{}{"goroutines": G, "mode": mode})
+								break
+							}
 						}
 					}
 				}
